@@ -53,6 +53,86 @@ theorem gray_fast_path (y : Nat) (hy : y < 256) :
   have h2 : y % 256 = y := Nat.mod_eq_of_lt hy
   simp [h2]
 
+/-- **The YCbCr fast paths are the generic path too**: per channel, the inlined conversion of `scale_RGBA_YCbCr4xx_Src`
+    (shift, clamp to 16 bits, keep the high byte) stores what the generic `Src` path stores for `color.YCbCr.RGBA()`'s
+    channel — for every 24-bit fixed-point value, negative and overflowing ones included. -/
+theorem ycbcr_fast_path (v : Int) : ycbcrStoreChan v = u8 (ycbcrClamp v / 256) := by
+  unfold ycbcrStoreChan ycbcrClamp
+  simp only
+  by_cases h1 : v < 0
+  · have : v / 256 < 0 := by omega
+    simp [h1, this]
+  · by_cases h2 : v < 16777216
+    · have a1 : ¬ v / 256 < 0 := by omega
+      have a2 : ¬ v / 256 > 0xffff := by omega
+      simp only [h1, h2, a1, a2, if_false, if_true]
+      congr 1
+      omega
+    · have a1 : ¬ v / 256 < 0 := by omega
+      have a2 : v / 256 > 0xffff := by omega
+      simp only [h1, h2, a1, a2, if_false, if_true]
+      rfl
+
+/-- The whole pixel: what `scale_RGBA_YCbCr4xx_Src` stores for `(Y, Cb, Cr)` is what the generic `Src` path stores for
+    `color.YCbCr{Y, Cb, Cr}.RGBA()` (`Spec.Images.ycbcrRGBA`) — the chroma sample is whichever the subsampling ratio
+    selects, in both. -/
+theorem ycbcr_pixel_fast_path (y cb cr : Nat) :
+    (⟨ycbcrStoreChan ((y : Int) * 65793 + 91881 * ((cr : Int) - 128)),
+      ycbcrStoreChan ((y : Int) * 65793 - 22554 * ((cb : Int) - 128) - 46802 * ((cr : Int) - 128)),
+      ycbcrStoreChan ((y : Int) * 65793 + 116130 * ((cb : Int) - 128)), 0xff⟩ : P8) =
+      storeSrc (.ofQuad (ycbcrRGBA y cb cr)) := by
+  simp only [storeSrc, C16.ofQuad, ycbcrRGBA, ycbcr_fast_path]
+  rfl
+
+/-- An opaque pixel of any source type through the scaler and back to the renderer: `toRGB` of the stored bytes is
+    exactly the high byte of each 16-bit channel `At(x, y).RGBA()` returned, alpha 255 — either operator. -/
+theorem generic_scaled_opaque_pixel (c : C16) (ha : c.a = 0xffff) (hr : c.r < 65536) (hg : c.g < 65536) (hb : c.b < 65536) (over : Bool) :
+    toRGB (conv .rgba (if over then storeOver ⟨0, 0, 0, 0⟩ c else storeSrc c)) = ⟨c.r / 256, c.g / 256, c.b / 256, 255⟩ := by
+  have hs : (if over then storeOver ⟨0, 0, 0, 0⟩ c else storeSrc c) = storeSrc c := by
+    cases over
+    · rfl
+    · simp only [if_true, storeOver_zero]
+  rw [hs]
+  have e : storeSrc c = ⟨c.r / 256, c.g / 256, c.b / 256, 255⟩ := by
+    simp only [storeSrc, u8, ha, P8.mk.injEq]
+    refine ⟨?_, ?_, ?_, by decide⟩ <;> omega
+  rw [e]
+  have h1 : c.r / 256 < 256 := by omega
+  have h2 : c.g / 256 < 256 := by omega
+  have h3 : c.b / 256 < 256 := by omega
+  exact VaxisModel.Props.C20.opaque_exact_rgba (c.r / 256) (c.g / 256) (c.b / 256) h1 h2 h3
+
+theorem generic_pix (src : Img8) (x y : Nat) : src.generic.pix x y = load src.kind (src.pix x y) := by
+  rw [fast_path_reads_rgba]
+  exact getD_map_zero src.px (conv src.kind) _ (conv_zero src.kind)
+
+theorem scaleG_generic (over : Bool) (src : Img8) (dw dh : Nat) :
+    scaleG over ⟨src.w, src.h, src.px.map (conv src.kind)⟩ dw dh = scale over src dw dh := by
+  show scaleG over src.generic dw dh = scale over src dw dh
+  unfold scaleG scale scaledPxGeneric scaledPx
+  simp only [generic_pix]
+  rfl
+
+/-- **The generic pipeline contains the verified one**: `resizeImage` modelled for a source of any type
+    (`resizeImgG`: what `At().RGBA()` returns per pixel, the scaler's generic path), applied to a stored NRGBA / RGBA
+    image seen that way, gives exactly what the block renderers read from the fast-path model `resizeImg` — so the
+    driver's model for `*image.YCbCr` sources is the model of the pipeline theorems, instantiated at another conversion. -/
+theorem generic_model_contains_fast_model (F : FloatOps) (src : Img8) (w h cellW cellH : Nat) :
+    resizeImgG F src.generic src.opaque w h cellW cellH = (resizeImg F src w h cellW cellH).map Img8.view := by
+  unfold resizeImgG resizeImg resizeImgGWith resizeImgWith
+  simp only [Img8.generic]
+  cases h1 : cells genCfg.colsUp src.w cellW with
+  | error e => rfl
+  | ok columns =>
+    cases h2 : cells genCfg.linesUp src.h cellH with
+    | error e => rfl
+    | ok lines =>
+      simp only [bind, Except.bind, pure, Except.pure, Except.map]
+      by_cases hf : evalFit genCfg.fit columns w lines h = true
+      · simp only [hf, if_true]; rfl
+      · simp only [hf, scaleG_generic]
+        rfl
+
 /-! ## One statement for the colours of a translucent cell -/
 
 /-- A colour `T` the renderer computed stands for the stored pixel `p`: the alpha is the pixel's alpha byte, and — when
